@@ -47,6 +47,44 @@ pub fn spec_anb(a: i32, b: i32, idx: i64) -> bool {
   false
 }
 
+/// reference with `ofRule: {kind: K}`: position of `x` among the named children of its parent
+/// *that have kind K* (x itself must be one of them)
+pub fn spec_index_of(t: &TreeData, n: usize, parent: &[u8; MAXN], x: usize, reverse: bool, k: u16) -> Option<i64> {
+  if x == 0 || !t.nodes[x].named || t.nodes[x].kind != k {
+    return None;
+  }
+  let p = parent[x];
+  let mut before = 0i64;
+  let mut after = 0i64;
+  let mut i = 1;
+  while i < n {
+    if parent[i] == p && t.nodes[i].named && t.nodes[i].kind == k {
+      if i < x {
+        before += 1;
+      }
+      if i > x {
+        after += 1;
+      }
+    }
+    i += 1;
+  }
+  Some(if reverse { after + 1 } else { before + 1 })
+}
+
+pub fn real_matches_of(g: &ast_grep_core::AstGrep<ast_grep_core::StrDoc<HL>>, x: usize, a: i32, b: i32, reverse: bool, k: u16) -> bool {
+  use ast_grep_config::verif_hooks::nth_child::nth_child_of_rule_from_parts;
+  let of = ast_grep_config::Rule::Kind(ast_grep_core::matcher::KindMatcher::from_id(k));
+  let m = nth_child_of_rule_from_parts::<HL>(a, b, reverse, of);
+  let env = MetaVarEnv::new();
+  let mut cow = Cow::Borrowed(&env);
+  let node = node_at(g, x);
+  let r = m.match_node_with_env(node, &mut cow).is_some();
+  std::mem::forget(cow);
+  std::mem::forget(env);
+  std::mem::forget(m);
+  r
+}
+
 pub fn real_matches(g: &ast_grep_core::AstGrep<ast_grep_core::StrDoc<HL>>, x: usize, a: i32, b: i32, reverse: bool) -> bool {
   let m = nth_child_from_parts::<HL>(a, b, reverse);
   let env = MetaVarEnv::new();
@@ -62,6 +100,34 @@ pub fn real_matches(g: &ast_grep_core::AstGrep<ast_grep_core::StrDoc<HL>>, x: us
 #[cfg(test)]
 mod tests {
   use super::*;
+  #[test]
+  fn of_rule_flat3() {
+    // root -> 1 a 2   (number ident number), ofRule kind: number
+    let parent = [0u8; MAXN];
+    let mut d = TreeData::from_parents(4, &parent);
+    let kinds = [mock_ts::K_IDENT, mock_ts::K_NUMBER, mock_ts::K_IDENT, mock_ts::K_NUMBER];
+    for i in 0..4 {
+      d.nodes[i].kind = kinds[i];
+      d.nodes[i].named = true;
+    }
+    d.layout(&[1u8; MAXN], &[0u8; MAXN]);
+    d.fix_named_counts();
+    let dd = d.clone();
+    let g = mk_grep(SRC_X, d);
+    for x in 0..4 {
+      for rev in [false, true] {
+        for a in -1..=2 {
+          for b in 0..=3 {
+            let want = match spec_index_of(&dd, 4, &parent, x, rev, mock_ts::K_NUMBER) {
+              Some(i) => spec_anb(a, b, i),
+              None => false,
+            };
+            assert_eq!(real_matches_of(&g, x, a, b, rev, mock_ts::K_NUMBER), want, "x={x} rev={rev} a={a} b={b}");
+          }
+        }
+      }
+    }
+  }
   #[test]
   fn flat3() {
     // root -> a b c, b unnamed
@@ -96,6 +162,39 @@ mod tests {
 #[cfg(kani)]
 mod proofs {
   use super::*;
+
+  #[kani::proof]
+  #[kani::unwind(10)]
+  #[kani::stub(regex::Regex::new, crate::stub_regex_new)]
+  fn c05k_nth_child_of_rule_n4() {
+    let mut t = any_tree(4, 1);
+    let mut i = 0;
+    while i < MAXN {
+      if i < 4 {
+        let kd: u16 = kani::any();
+        kani::assume(kd == mock_ts::K_IDENT || kd == mock_ts::K_NUMBER);
+        t.data.nodes[i].kind = kd;
+      }
+      i += 1;
+    }
+    let x: usize = kani::any();
+    kani::assume(x < t.n);
+    let a: i32 = kani::any();
+    let b: i32 = kani::any();
+    kani::assume(a >= -1 && a <= 2 && b >= 0 && b <= 3);
+    let reverse: bool = kani::any();
+    let want = match spec_index_of(&t.data, t.n, &t.parent, x, reverse, mock_ts::K_NUMBER) {
+      Some(i) => spec_anb(a, b, i),
+      None => false,
+    };
+    let g = mk_grep(SRC_X, t.data.clone());
+    let got = real_matches_of(&g, x, a, b, reverse, mock_ts::K_NUMBER);
+    kani::cover!(want && reverse);
+    kani::cover!(want && !reverse);
+    kani::cover!(!want && x > 0 && t.data.nodes[x].named && t.data.nodes[x].kind != mock_ts::K_NUMBER);
+    assert!(got == want, "nthChild ofRule: (An+B)-th among the named siblings that match the rule");
+    std::mem::forget(g);
+  }
 
   #[kani::proof]
   #[kani::unwind(10)]
